@@ -186,4 +186,105 @@ var vfFrameSpec = vlib.Spec[vfFrameCase]{
 	Run: vfFrameRun,
 }
 
-func TestVerif_C16(t *testing.T) { vlib.Both(t, vfFrameSpec) }
+// ---- transit through a pair of connections ----------------------------------------------------------------------
+//
+// Frames of generated sizes are sent through one Conn and read from its peer Conn (net.Pipe in between): what
+// arrives is what was sent, byte for byte and in order, whatever the sizes are (send and receive path together).
+
+type vfTransitCase struct {
+	Sizes []int `json:"sizes"`
+	Burst bool  `json:"burst"` // all frames are queued before the reader starts reading
+}
+
+func vfTransitRun(c vfTransitCase, ctx *vlib.Ctx) *vlib.Failure {
+	vfSetup()
+	a, b := net.Pipe()
+	mk := func(nc net.Conn) (*Conn, context.CancelFunc) {
+		opts := defaultOptions()
+		opts.keepaliveInterval = 0
+		opts.keepaliveTimeout = time.Hour
+		opts.recvQueueSize = len(c.Sizes) + 2
+		opts.sendQueueSize = len(c.Sizes) + 2
+		return newConn(nc, opts)
+	}
+	ca, cancelA := mk(a)
+	cb, cancelB := mk(b)
+	defer cancelA()
+	defer cancelB()
+	bg, cancel := context.WithTimeout(context.Background(), 60*time.Second)
+	defer cancel()
+	frames := make([][]byte, len(c.Sizes))
+	for i, sz := range c.Sizes {
+		f := make([]byte, sz)
+		for j := range f {
+			f[j] = byte(i*37 + j*11 + sz)
+		}
+		frames[i] = f
+	}
+	sendErr := make(chan error, 1)
+	send := func() {
+		for i, f := range frames {
+			if err := ca.Send(bg, f); err != nil {
+				sendErr <- fmt.Errorf("frame %d (%d bytes): %v", i, len(f), err)
+				return
+			}
+		}
+		sendErr <- nil
+	}
+	if c.Burst {
+		send()
+		if err := <-sendErr; err != nil {
+			return vlib.Failf("send-refused", "%v", err)
+		}
+	} else {
+		go send()
+	}
+	for i, w := range frames {
+		got, err := cb.Read(bg)
+		if err != nil {
+			return vlib.Failf("frame-altered", "frame %d of %d (%d bytes; sizes %v): Read on the peer returned %v instead of the frame", i, len(frames), len(w), c.Sizes, err)
+		}
+		if !bytes.Equal(got, w) {
+			return vlib.Failf("frame-altered", "frame %d of %d: %d bytes sent, %d bytes delivered or content differs (sizes %v)", i, len(frames), len(w), len(got), c.Sizes)
+		}
+	}
+	if !c.Burst {
+		if err := <-sendErr; err != nil {
+			return vlib.Failf("send-refused", "%v", err)
+		}
+	}
+	if len(c.Sizes) >= 2 {
+		ctx.NonTrivial()
+	}
+	return nil
+}
+
+var vfTransitSpec = vlib.Spec[vfTransitCase]{
+	Prop: "C16", Name: "frame-transit", Scale: 0.15, Min: 60,
+	Rule: "1-8 frames of generated sizes (1..70000 bytes: dense around 2^k-4..2^k+4 for k=4..16 and around 1000..1050, random otherwise) sent through one Conn and read from its peer over net.Pipe, queued in a burst or interleaved with the reader; oracle: every frame arrives byte-exact and in order; non-trivial = >=2 frames; distinct = distinct case JSON",
+	Gen: func(t *rapid.T) vfTransitCase {
+		c := vfTransitCase{Burst: rapid.Bool().Draw(t, "burst")}
+		n := rapid.IntRange(1, 8).Draw(t, "n")
+		for i := 0; i < n; i++ {
+			var sz int
+			switch rapid.IntRange(0, 3).Draw(t, "kind") {
+			case 0:
+				sz = (1 << uint(rapid.IntRange(4, 16).Draw(t, "k"))) + rapid.IntRange(-4, 4).Draw(t, "d")
+			case 1:
+				sz = rapid.IntRange(1000, 1050).Draw(t, "near1k")
+			case 2:
+				sz = rapid.IntRange(1, 300).Draw(t, "small")
+			default:
+				sz = rapid.IntRange(1, 70000).Draw(t, "any")
+			}
+			c.Sizes = append(c.Sizes, sz)
+		}
+		return c
+	},
+	Run: vfTransitRun,
+}
+
+func TestVerif_C16(t *testing.T) {
+	t.Run("bound", func(t *testing.T) { vlib.Both(t, vfFrameSpec) })
+	t.Run("transit", func(t *testing.T) { vlib.Both(t, vfTransitSpec) })
+}
